@@ -694,7 +694,70 @@ def run_history(fp, view, prog, calls, trace):
 
 # ====================================================================================== worker (one program)
 
-def _histories_of(item, rng, nhist):
+def port_conditions(fp, prog, canon_calls, rng):
+    """close_until conditions for a generated history: facts over the caller's elements that hold in the model closed by
+    the python port but were not asserted (so they become true during closing, some only after definitions)."""
+    p = Port(fp)
+    hd = []
+    asserted = set()
+    try:
+        for c in canon_calls:
+            if c[0] == "new":
+                hd.append(p.new_el(c[1]))
+            elif c[0] == "insert":
+                p.insert((("R", c[1]), tuple(hd[h] for h in c[2])))
+                asserted.add((c[1], tuple(c[2])))
+            elif c[0] == "define":
+                hd.append(p.define(c[1], tuple(hd[h] for h in c[2])))
+            elif c[0] == "equate":
+                p.equate(hd[c[2]], hd[c[3]])
+            elif c[0] == "close":
+                p.canonicalize()
+                p.pending = []
+                for _ in range(FUEL):
+                    p.exec_iter(())
+                    if not p.is_dirty():
+                        p.apply_defs()
+                        if not p.is_dirty():
+                            break
+                else:
+                    return []
+    except RecursionError:
+        return []
+    hroots = {}
+    for hi, e in enumerate(hd):
+        hroots.setdefault(p.rep(e), []).append(hi)
+    cands = []
+    for (r, t) in p.old + p.new:
+        if r[0] == "R" and all(x in hroots for x in t):
+            hs = [rng.choice(hroots[x]) for x in t]
+            if (r[1], tuple(hs)) not in asserted:
+                cands.append((r[1], hs))
+    out = []
+    for (r, hs) in rng.shuffle(cands)[:3]:
+        if prog["sig"]["rels"][r]["func"] and rng.chance(1, 2):
+            out.append(("F", r, hs[:-1]))
+        else:
+            out.append(("P", r, hs))
+    return out
+
+
+def def_programs(seed, n):
+    """Programs with a `!` / `:=` conclusion (pending definitions are what makes close_until's early return delicate)."""
+    out = []
+    k = 0
+    while len(out) < n and k < 40 * n:
+        rng = Rng(seed).fork("tiedef%d" % k)
+        k += 1
+        prog = progs.ProgGen(rng, max_rules=4).gen()
+        if prog is None:
+            continue
+        if any(st[0] == "then" and st[1][0] in ("def", "let") for ru in prog["rules"] for st in ru):
+            out.append({"sig": prog["sig"], "rules": prog["rules"], "_bias": "defs", "idx": 11000 + len(out)})
+    return out
+
+
+def _histories_of(item, rng, nhist, fp=None):
     """-> (prog, text, [(calls, hoe, canon_calls)])"""
     if "prog" in item:
         prog, text = item["prog"], item.get("text") or progs.prog_eql(item["prog"])
@@ -724,6 +787,10 @@ def _histories_of(item, rng, nhist):
                         tail_calls.append(("equate", types[a], a, b))
                 calls = [c for c in calls if c[0] != "dump"] + tail_calls + [("close",), ("dump",)]
             hs.append((calls, hoe, canon))
+        if fp is not None:
+            pre = [c for c in canon if c[0] not in ("close", "dump")]
+            for cnd in port_conditions(fp, prog, canon, rng):
+                hs.append((pre + [("close_until", cnd), ("dump",), ("close",), ("dump",)], _h, canon))
     return prog, progs.prog_eql(prog), hs
 
 
@@ -773,7 +840,27 @@ def tie_worker(args):
         if prog["sig"].get("enums"):
             out["status"] = "enum_unsupported"      # translate/desc.py (inspection impl) does not cover enum declarations
             return out
+        lenient_note = []
+        if os.environ.get("VERIF_TIE_LENIENT"):
+            # experiments with seeded changes only: translate/desc.py refuses a close_until that differs from its template
+            # (reported as a broken translation).  To see what the BEHAVIOURAL comparison says about the known variant
+            # "no apply_func_defs before the early return", parse a copy of the text in which that call is put back.
+            import re as _re
+            orig = tdesc.parse_module
+
+            def lenient(mtext):
+                try:
+                    return orig(mtext)
+                except tdesc.DescError as ex:
+                    if "close_until does not match" not in str(ex):
+                        raise
+                    lenient_note.append(str(ex)[:200])
+                    return orig(_re.sub(r"(delta\.apply_tuples\(self\);\s*self\.recompute_model_indices\(\);\s*if condition\(self\) \{\s*)(return true;)",
+                                        r"\1delta.apply_func_defs(self);\n\2", mtext))
+            tdesc.parse_module = lenient
         built, status, log = gendrv.compile_program(prog, wd, text=text, inspect=True)
+        if lenient_note:
+            out["template_deviation"] = lenient_note[0]
         if built is None:
             out["status"], out["log"] = status, log[-1500:]
             return out
@@ -798,6 +885,8 @@ def tie_worker(args):
             out["status"], out["log"] = "translate_failed", str(ex)[:1500]
             return out
         out["fp"] = fp
+        if "prog" not in item:
+            _p, _t, hs = _histories_of(item, Rng(seed).fork("tie%d" % idx), nhist, fp)
         for (calls, hoe, canon) in _select(hs, nhist, rng):
             api = strip_history(calls)
             h = {"calls": api, "orig": calls, "hoe": hoe, "canon": canon}
@@ -883,22 +972,35 @@ def engine_tie(ctx, results_or_programs, pid, nprog=None, nhist=None, nmerge=Non
     """nprog: at most that many programs of `results_or_programs` (enum programs are skipped); nhist: histories per program;
     nmerge: additional programs from the union/diagonal-biased generator of C04 (histories generated here)."""
     quick = ctx.tier == "quick"
-    nprog = nprog or (24 if quick else 160)
-    nhist = nhist or (6 if quick else 12)
-    nmerge = (8 if quick else 60) if nmerge is None else nmerge
+    nprog = (16 if quick else 120) if nprog is None else nprog
+    nhist = nhist or (5 if quick else 12)
+    nmerge = (6 if quick else 40) if nmerge is None else nmerge
     if not any(o[0] == "build:Engine" for o in ctx.obligations):
         ctx.coq_build("Engine")
     if not any(o[0] == "build:Sem" for o in ctx.obligations):
         ctx.coq_build("Sem")
     if not any(o[0].startswith("thm:Tie_") for o in ctx.obligations):
         ctx.coq_props("Engine", "Props_Tie.v", required=TIE_REQ)
+    if not any(o[0] == "thm:Sem.FactsIso.iso_map_b_sound" for o in ctx.obligations):
+        # the verdict of pass 2 is Sem.Iso.iso_map_b; its soundness theorem is not re-exported by Props_Sem.v
+        d = os.path.join(VERIF, "coq", "Sem")
+        os.makedirs(os.path.join(d, "gen"), exist_ok=True)
+        with open(os.path.join(d, "gen", "assump_iso_map.v"), "w") as fh:
+            fh.write("Require Import Sem.Syntax Sem.Iso Sem.SpecHom Sem.FactsIso.\nCheck (iso_map_b_sound : forall m A B, iso_map_b m A B = true -> Iso A B).\n"
+                     "Print Assumptions iso_map_b_sound.\n")
+        rc, out = sh("coqc -noglob -Q . Sem gen/assump_iso_map.v", cwd=d, timeout=600)
+        ok = rc == 0 and "Closed under the global context" in out
+        ctx.checker_cmds.append("cd coq/Sem && coqc -noglob -Q . Sem gen/assump_iso_map.v")
+        ctx.obligation("thm:Sem.FactsIso.iso_map_b_sound", ok, "closed under the global context" if ok else out[-300:])
+        if not ok:
+            ctx.broken.append("Sem.FactsIso.iso_map_b_sound (soundness of the isomorphism verdict) is missing or depends on axioms")
     def usable(r):
         if "prog" not in r:
             return "sig" in r and not r["sig"].get("enums")
         return r.get("status") == "ok" and r.get("sets") and not r["prog"]["sig"].get("enums")
     skipped_enum = sum(1 for r in results_or_programs if (r.get("prog") or r).get("sig", {}).get("enums"))
     items = [r for r in results_or_programs if ("prog" in r or "sig" in r) and usable(r)][:nprog]
-    items += merge_programs(ctx.seed, nmerge)
+    items += merge_programs(ctx.seed, nmerge) + def_programs(ctx.seed, max(1, nmerge // 2))
     import time
     t0 = time.time()
     timing = {}
@@ -922,6 +1024,8 @@ def engine_tie(ctx, results_or_programs, pid, nprog=None, nhist=None, nmerge=Non
                 res["status"], res["log"][:300], res["text"][:400]))
         elif res["status"] != "ok":
             ctx.cov.setdefault("tie_unusable_programs", []).append({"status": res["status"], "log": res["log"][-200:]})
+        if res.get("template_deviation"):
+            ctx.broken.append("engine tie: the emitted close_until differs from the modelled template: %s" % res["template_deviation"])
         if res["status"] == "ok":
             st["translated_subrules"] += len(res["fp"]["rules"])
             for pb in res["fp"]["problems"]:
@@ -1130,4 +1234,3 @@ def engine_tie(ctx, results_or_programs, pid, nprog=None, nhist=None, nmerge=Non
     ctx.obligation("tie:ModelW vs emitted close_until, every observation point isomorphic (check_iso in Coq)",
                    bool(vals) and ok2 and not disagree and st["judged_in_coq"] > 0,
                    "%d observation points of %d histories judged" % (st["judged_in_coq"], len(pending_verdicts)))
-    return st
